@@ -16,6 +16,7 @@ ASSUMPTIONS = ["atomicity of the sections between yield points (each runs under 
 class Deadline:
     """wall-clock monitor (partial): real lookups with real timers"""
     NAME = "deadline"
+    NONDETERMINISTIC = True
     ENGINE = "deadline"
     IMPORTS = "From Xds Require Import Model.Base Model.Conc Model.ConcCheck."
     FN = "dl_check"
